@@ -205,6 +205,10 @@ func (c17) Exec(seed int64, i int, tier string) Record {
 	// three-way (L20): the same question answered with the expressions decompiled from the rule functions of jsonpath.peg.go
 	rec.Q = append(rec.Q, LeanQ{Driver: "peggo", Line: "(q goparse " + accS + " " + SexpString(s) + ")", Expect: expect,
 		What: "real Parse vs the decompiled rule functions of jsonpath.peg.go executed in Lean (Gen.goGrammar)", Oracle: true, Skip: "(q unmodelled)"})
+	// four-way (L30): the rule functions run with the templates of the generated code on the regenerated Go runtime (RunGo.parseGoRules)
+	rec.Q = append(rec.Q, LeanQ{Driver: "peggo", Line: "(q gorun " + accS + " " + SexpString(s) + ")", Expect: expect,
+		What: "real Parse vs the rule functions on the regenerated runtime of jsonpath.peg.go executed in Lean (RunGo.parseGoRules)", Oracle: true, Skip: "(q unmodelled)"})
+	rec.Tags = append(rec.Tags, "lean:gorun")
 	return rec
 }
 
